@@ -84,6 +84,26 @@ def run_one(spec):
     return fails, dis, worst
 
 
+def escalate(chk, names):
+    """a translator or the log-shape correspondence broke and no step ran away: many more constrained runs (all geometries, tiny and
+    long dimensions) of the optimizers the broken cases name - all optimizers when none is named (a translator names none)"""
+    r = C.rng("C08-escalate")
+    names = [n for n in names if n in gen.ALL_OPTIMIZERS] or [n for n in gen.ALL_OPTIMIZERS if n not in gen.SMBO]
+    fails, n = [], 0
+    for name in names:
+        for _ in range(12 if len(names) > 4 else 40):
+            base = bkgen.scenario(r, name, constraint_p=0.0, sizes=[2, 3, 3, 5, 10, 31])
+            if gen.space_size(base["space"]) < 4:
+                continue
+            for cons in geometries(r, base["space"])[:3]:
+                fl, _ds, _w = run_one(dict(base, constraint=cons, seed=r.randrange(100000)))
+                fails += fl
+                n += 1
+            if len(fails) > 10:
+                break
+    chk.monitor("ESCALATED search (a translator or correspondence broke): C08 statement on many more constrained runs", n, fails)
+
+
 def run():
     chk = Check("C08", props_modules=["GFO.Props.C08", "GFO.Gen.CoreGenCheck"], gen_steps=(translators.gen_core,))
     chk.build_and_audit()
@@ -108,6 +128,8 @@ def run():
                  [dict(max_constraint_evaluations_per_step_histogram=hist)])
         chk.monitor(f"C08 statement: no step exceeds {CAP} constraint evaluations or the watchdog; all 22 optimizers x half-spaces, parity/band lattices, random masks (feasible fraction >= 25 %), tiny/unsorted dimensions; past witnesses first",
                     n, fails)
+    if chk.needs_escalation():
+        chk.stage("escalated search", escalate, chk, chk.broken_opts())
     chk.assumptions.append("'bounded' for randomised loops is in expectation and rests on the i.i.d./full-support behaviour of the generators (trusted); move_climb's acceptance probability under the actual distributions is not quantified, only its no-dead-state structure")
     scen.shutdown_manager()
     return chk.finish()
